@@ -423,6 +423,14 @@ func parseString(p *peeker) (node, hcl.Diagnostics) {
 				Start:    errPos,
 				End:      errEndPos,
 			}
+			if errPos.Byte >= tok.Range.End.Byte {
+				// The decoder ran out of input (an unterminated string), so
+				// there is no offending character inside the token to point
+				// at; mark the end of the token instead of a position
+				// beyond it.
+				errRange.Start = tok.Range.End
+				errRange.End = tok.Range.End
+			}
 		} else {
 			errRange = tok.Range
 		}
